@@ -787,6 +787,46 @@ def run(ctx: Any, prog: Program) -> None:
                     filt = conds + skips
                     ctx.check('C06.V20', not filt, vm, filt[0] if filt else c, f'{qual20}: elements of `{U(lp20.iter)[:40]}` are written only when `{U(filt[0].test)[:60] if filt else ""}`: the others are missing from the file '
                               '(and from the map read back), although they are part of the object graph', func=qual20, text=f'{qual20}: all of {U(lp20.iter)[:40]} written')
+    # ---- V24: a parser hands the values on as they were read -------------------------------------------------------------------------------
+    # what `tree.vec(..)`, `tree.int(..)`, `tree[key]` return is what the file says; export() writes fields verbatim.  A "defensive"
+    # normalisation between the read and the constructor (Vec.bbox on the two cordon corners, a case-fold of a material name, a value
+    # replaced by a memoised equal-ish one) means parse(export(x)) is not x.  A module-level container that parse writes to makes the result
+    # depend on what was parsed earlier in the process as well.
+    ctx.rule('C06.V24', 'parsers do not normalise, fold or memoise the values they read', floor=1)
+    NORM24 = {'Vec.bbox', 'sorted', 'min', 'max', 'abs', 'round', 'sys.intern'} - {'sys.intern'}
+    NORM24_M = {'casefold', 'lower', 'upper', 'strip', 'lstrip', 'rstrip', 'title', 'swapcase'}
+    READS24 = {'vec', 'int', 'float', 'bool', 'find_key', 'find_block', 'find_all'}
+    mod_containers = {t.id for st in vm.tree.body if isinstance(st, (ast.Assign, ast.AnnAssign)) and st.value is not None and isinstance(st.value, (ast.Dict, ast.List, ast.Set))
+                      for t in (st.targets if isinstance(st, ast.Assign) else [st.target]) if isinstance(t, ast.Name)}
+    n24 = 0
+    for q24, fl24 in vm.all_funcs().items():
+        if not (q24.endswith('.parse') or '._parse' in q24):
+            continue
+        for f24 in fl24:
+            params24 = [a.arg for a in f24.args.args]
+
+            def direct24(e: ast.AST) -> bool:
+                return any((isinstance(c, ast.Call) and isinstance(c.func, ast.Attribute) and c.func.attr in READS24 and isinstance(c.func.value, ast.Name))
+                           or (isinstance(c, ast.Subscript) and isinstance(c.value, ast.Name) and c.value.id in params24 and isinstance(c.ctx, ast.Load)) for c in ast.walk(e))
+            rl24 = {t.id for a in walk_no_nested(f24) if isinstance(a, ast.Assign) and direct24(a.value) for t in a.targets if isinstance(t, ast.Name)}
+
+            def is_read24(e: ast.AST) -> bool:
+                return direct24(e) or any(isinstance(x, ast.Name) and x.id in rl24 for x in ast.walk(e))
+            n24 += 1
+            for c in walk_no_nested(f24):
+                if not isinstance(c, ast.Call):
+                    continue
+                d24 = dotted(c.func) or ''
+                if d24 in NORM24 and any(is_read24(a) for a in c.args):
+                    ctx.check('C06.V24', False, vm, c, f'{q24} passes what it read through `{U(c)[:60]}`: the value in the file is changed on the way in, so a value that export() wrote (the two corners of a cordon in any order) '
+                              'comes back different', func=q24, text=f'{q24}: `{U(c)[:40]}` on a parsed value')
+                if isinstance(c.func, ast.Attribute) and c.func.attr in NORM24_M and is_read24(c.func.value):
+                    ctx.check('C06.V24', False, vm, c, f'{q24} folds / trims a string it read (`{U(c)[:60]}`): the exact spelling in the file is what export() wrote', func=q24, text=f'{q24}: `{U(c)[:40]}` on a parsed value')
+                if isinstance(c.func, ast.Attribute) and isinstance(c.func.value, ast.Name) and c.func.value.id in mod_containers and c.func.attr in ('setdefault', 'append', 'add', 'update', 'pop', 'insert', 'extend'):
+                    ctx.check('C06.V24', False, vm, c, f'{q24} writes to the module-level container `{c.func.value.id}` (`{U(c)[:60]}`): what a later parse returns then depends on what was parsed before in the same process',
+                              func=q24, text=f'{q24}: no module-level state')
+    ctx.shape('C06.V24', n24 >= 8, vm, vm.tree, f'{n24} parse functions examined in vmf.py (8 confirmed by hand)', func='<module>', text='parse functions examined')
+
     # ---- V23: numbered items are put in order as numbers -------------------------------------------------------------------------------------
     # `sorted()` over a table keyed by index *strings* is lexicographic: '10' comes before '2'.  A reader that collects `"<index> <value>"`
     # items under the text of the index (a key it also checks with isdecimal()/isdigit() or converts with int() elsewhere) and then sorts the
@@ -1477,6 +1517,7 @@ def elt_token_alternatives(elt: ast.AST, tokens_of_type: Dict[str, int]) -> Opti
 
 
 MUTANTS = [
+    {'id': 'cordon_corners_sorted_on_read', 'file': 'vmf.py', 'find': "        min_ = bounds.vec('mins', 0, 0, 0)\n        max_ = bounds.vec('maxs', 128, 128, 128)\n", 'replace': "        min_, max_ = Vec.bbox(bounds.vec('mins', 0, 0, 0), bounds.vec('maxs', 128, 128, 128))\n", 'expect': 'C06.V24'},
     {'id': 'strata_points_sorted_by_index_text', 'file': 'vmf.py', 'find': "        points: list[Optional[Vec]] = [None] * block.int('numpts')\n", 'replace': "        by_text: dict = {}\n        for child in block.find_all('point'):\n            ind_s, _, pos_s = child.value.partition(' ')\n            if ind_s.isdecimal():\n                by_text[ind_s] = pos_s\n        ordered = [p for _, p in sorted(by_text.items())]\n        points: list[Optional[Vec]] = [None] * block.int('numpts')\n", 'expect': 'C06.V23'},
     {'id': 'multiblend_gate_blend_only', 'file': 'vmf.py', 'find': "            vert.multi_blend or vert.multi_alpha or vert.multi_colors is not None\n", 'replace': "            vert.multi_blend\n", 'expect': 'C06.V22'},
     {'id': 'multiblend_gate_colours_only', 'file': 'vmf.py', 'find': "            vert.multi_blend or vert.multi_alpha or vert.multi_colors is not None\n", 'replace': "            vert.multi_colors is not None\n", 'expect': 'C06.V22'},
